@@ -1,0 +1,67 @@
+//go:build verif
+
+// Accessors used by the verification harness in /verif. This file is only
+// compiled with the build tag "verif"; it adds no behaviour to the package.
+
+package sqlair
+
+import (
+	"sort"
+
+	"github.com/canonical/sqlair/internal/expr"
+)
+
+// VerifParse parses the query and returns the canonical dump of the parsed
+// segments.
+func VerifParse(query string) (string, error) {
+	pe, err := expr.NewParser().Parse(query)
+	if err != nil {
+		return "", err
+	}
+	return pe.VerifDump(), nil
+}
+
+// VerifCacheCounts returns the number of Statement entries, the number of DB
+// entries and the number of cached driver statements in the statement cache,
+// and the pairs (statement id, db id) of both index maps, sorted.
+func VerifCacheCounts() (stmts int, dbs int, driverStmts int, stmtDB [][2]uint64, dbStmt [][2]uint64) {
+	sc := stmtCache
+	sc.mutex.RLock()
+	defer sc.mutex.RUnlock()
+	stmts = len(sc.stmtDBCache)
+	dbs = len(sc.dbStmtCache)
+	for sid, m := range sc.stmtDBCache {
+		for did := range m {
+			driverStmts++
+			stmtDB = append(stmtDB, [2]uint64{sid, did})
+		}
+	}
+	for did, m := range sc.dbStmtCache {
+		for sid := range m {
+			dbStmt = append(dbStmt, [2]uint64{sid, did})
+		}
+	}
+	less := func(l [][2]uint64) func(i, j int) bool {
+		return func(i, j int) bool {
+			if l[i][0] != l[j][0] {
+				return l[i][0] < l[j][0]
+			}
+			return l[i][1] < l[j][1]
+		}
+	}
+	sort.Slice(stmtDB, less(stmtDB))
+	sort.Slice(dbStmt, less(dbStmt))
+	return stmts, dbs, driverStmts, stmtDB, dbStmt
+}
+
+// VerifIDs returns the cache ids of a Statement and a DB.
+func VerifIDs(s *Statement, db *DB) (uint64, uint64) {
+	var sid, did uint64
+	if s != nil {
+		sid = s.cacheID
+	}
+	if db != nil {
+		did = db.cacheID
+	}
+	return sid, did
+}
